@@ -7,12 +7,33 @@
  "harness": "h_write_place",
  "replace": ["write_xattrs_to_buffer"],
  "sources": ["lib/ext2fs/blknum.c", "lib/ext2fs/i_block.c"],
- "defines": ["EXT2_CUSTOM_MEMORY_ROUTINES"],
+ "defines": ["EXT2_CUSTOM_MEMORY_ROUTINES", "XW_ONLY_ISIZE=256"],
  "unwind": 4,
  "unwind_reason": "ext2fs_xattrs_write, prep_ea_block_for_write, ext2fs_free_ext_attr, ext2fs_read/write_ext_attr3 and the blknum.c / i_block.c helpers are loop-free (write_xattrs_to_buffer is replaced by its contract); the bound serves the DFCC library loops (unwinding assertions on)",
  "functions": ["lib/ext2fs/ext_attr.c:ext2fs_xattrs_write", "lib/ext2fs/ext_attr.c:prep_ea_block_for_write", "lib/ext2fs/ext_attr.c:ext2fs_write_ext_attr3", "lib/ext2fs/ext_attr.c:ext2fs_read_ext_attr3"],
- "assumes": ["configuration: block size 1024, no bigalloc, not 64bit, no huge_file (one block = 2 sectors of i_blocks); inode size 128 or 256; i_extra_isize, s_want_extra_isize, i_file_acl, i_blocks, the header of the old EA block (magic, h_refcount, h_blocks) and every callee result arbitrary",
-             "handle: 0 <= ibody_count <= count; ibody_count == 0 when the inode has no room for in-inode attributes (call-site guarantee: ext2fs_xattr_set computes ibody_free from the same geometry, ext2fs_xattrs_read_inode finds no in-inode region); the attribute array is not looked at (write_xattrs_to_buffer is replaced by a contract that records its arguments and havocs the region it is given; its own units: write_buffer, write_buffer_small)",
+ "assumes": ["configuration: block size 1024, no bigalloc, not 64bit, no huge_file (one block = 2 sectors of i_blocks); inode size 256 (128-byte inodes: unit xattrs_write_place_128); i_extra_isize, s_want_extra_isize, i_file_acl, i_blocks, the header of the old EA block (magic, h_refcount, h_blocks) and every callee result arbitrary",
+             "handle: 0 <= ibody_count <= count <= 2 (the function only passes the counts on; the bound keeps a 2-slot all-zero array valid for a repaired tree that walks the array to charge EA-inode values); ibody_count == 0 when the inode has no room for in-inode attributes (call-site guarantee: ext2fs_xattr_set computes ibody_free from the same geometry, ext2fs_xattrs_read_inode finds no in-inode region); the attribute array is not looked at (write_xattrs_to_buffer is replaced by a contract that records its arguments and havocs the region it is given; its own units: write_buffer, write_buffer_small)",
+             "s_want_extra_isize <= inode size - 128 (a larger value makes the memset that initialises a zero i_extra_isize run past the inode buffer: observation unit xattrs_write_want_extra_isize)",
+             "no value of the attributes written lives in an EA inode that would have to be charged to i_blocks (that part of the i_blocks statement is unit xattrs_write_ea_inode_charge); the case 'no attribute left for the block but the inode has one' is unit xattrs_write_empty_block",
+             "device, allocator and checksum code are ghost monitors (see xat2_write_common.h); a new block is different from the old one"],
+ "native": false
+}
+*/
+/* VERIF-UNIT
+{
+ "name": "xattrs_write_place_128",
+ "props": ["C15"],
+ "level": "P",
+ "tier": "quick",
+ "harness": "h_write_place",
+ "replace": ["write_xattrs_to_buffer"],
+ "sources": ["lib/ext2fs/blknum.c", "lib/ext2fs/i_block.c"],
+ "defines": ["EXT2_CUSTOM_MEMORY_ROUTINES", "XW_ONLY_ISIZE=128"],
+ "unwind": 4,
+ "unwind_reason": "ext2fs_xattrs_write, prep_ea_block_for_write, ext2fs_free_ext_attr, ext2fs_read/write_ext_attr3 and the blknum.c / i_block.c helpers are loop-free (write_xattrs_to_buffer is replaced by its contract); the bound serves the DFCC library loops (unwinding assertions on)",
+ "functions": ["lib/ext2fs/ext_attr.c:ext2fs_xattrs_write", "lib/ext2fs/ext_attr.c:prep_ea_block_for_write", "lib/ext2fs/ext_attr.c:ext2fs_write_ext_attr3", "lib/ext2fs/ext_attr.c:ext2fs_read_ext_attr3"],
+ "assumes": ["configuration: block size 1024, no bigalloc, not 64bit, no huge_file (one block = 2 sectors of i_blocks); inode size 128 (no in-inode region; 256-byte inodes: unit xattrs_write_place); i_extra_isize, s_want_extra_isize, i_file_acl, i_blocks, the header of the old EA block (magic, h_refcount, h_blocks) and every callee result arbitrary",
+             "handle: 0 <= ibody_count <= count <= 2 (the function only passes the counts on; the bound keeps a 2-slot all-zero array valid for a repaired tree that walks the array to charge EA-inode values); ibody_count == 0 when the inode has no room for in-inode attributes (call-site guarantee: ext2fs_xattr_set computes ibody_free from the same geometry, ext2fs_xattrs_read_inode finds no in-inode region); the attribute array is not looked at (write_xattrs_to_buffer is replaced by a contract that records its arguments and havocs the region it is given; its own units: write_buffer, write_buffer_small)",
              "s_want_extra_isize <= inode size - 128 (a larger value makes the memset that initialises a zero i_extra_isize run past the inode buffer: observation unit xattrs_write_want_extra_isize)",
              "no value of the attributes written lives in an EA inode that would have to be charged to i_blocks (that part of the i_blocks statement is unit xattrs_write_ea_inode_charge); the case 'no attribute left for the block but the inode has one' is unit xattrs_write_empty_block",
              "device, allocator and checksum code are ghost monitors (see xat2_write_common.h); a new block is different from the old one"],
@@ -24,7 +45,7 @@
  "name": "xattrs_write_empty_block",
  "props": ["C15"],
  "level": "P",
- "tier": "wip",
+ "tier": "quick",
  "harness": "h_write_empty_block",
  "replace": ["write_xattrs_to_buffer"],
  "sources": ["lib/ext2fs/blknum.c", "lib/ext2fs/i_block.c"],
@@ -42,7 +63,7 @@
  "name": "xattrs_write_ea_inode_charge",
  "props": ["C15"],
  "level": "P",
- "tier": "wip",
+ "tier": "quick",
  "harness": "h_write_ea_inode_charge",
  "replace": ["write_xattrs_to_buffer"],
  "sources": ["lib/ext2fs/blknum.c", "lib/ext2fs/i_block.c"],
@@ -53,6 +74,24 @@
  "assumes": ["as xattrs_write_place; the handle is the one ext2fs_xattrs_open + ext2fs_xattrs_read produce for an inode WITHOUT attributes (all-zero handle, count 0) after xattr_array_update added ONE attribute whose value lives in an EA inode (count == 1, ea_ino != 0, value_len <= 64 KiB); the inode has no EA block and is charged for no value inode yet",
              "statement: what e2fsck pass 1 recomputes for the owner (check_blocks: data blocks + the EA block + size_to_quota_blocks(e_value_size) per value inode, following the kernel's ext4_xattr_inode_alloc_quota -> inode_add_bytes) is what the library leaves in i_blocks",
              "FAILS ON THE TREE (genuine defect, findings/C15_ea_inode_iblocks): neither xattr_create_ea_inode nor ext2fs_xattrs_write charges the owner; e2fsck -fn reports 'i_blocks is X, should be Y' right after ext2fs_xattr_set; passes with findings/C15_ea_inode_iblocks/proposed-fix.patch"],
+ "native": false
+}
+*/
+/* VERIF-UNIT
+{
+ "name": "xattrs_write_want_extra_isize",
+ "props": ["C15", "C06"],
+ "level": "P",
+ "tier": "obs",
+ "harness": "h_write_want_extra_isize",
+ "replace": ["write_xattrs_to_buffer"],
+ "sources": ["lib/ext2fs/blknum.c", "lib/ext2fs/i_block.c"],
+ "defines": ["EXT2_CUSTOM_MEMORY_ROUTINES"],
+ "unwind": 4,
+ "unwind_reason": "loop-free, see xattrs_write_place",
+ "functions": ["lib/ext2fs/ext_attr.c:ext2fs_xattrs_write"],
+ "assumes": ["as xattrs_write_place but with an ARBITRARY s_want_extra_isize, on an inode whose i_extra_isize is 0",
+             "OBSERVATION (robustness against a damaged superblock, stronger than C15): 'If extra_isize isn't set, we need to set it now' does memset(inode + 128, 0, s_want_extra_isize) without comparing the 16-bit superblock field with the inode size; nothing in lib/ext2fs validates s_want_extra_isize (e2fsck's check_super_block does, the kernel clamps it at mount), so a value above inode_size - 128 writes past the inode buffer"],
  "native": false
 }
 */
@@ -96,12 +135,13 @@ static unsigned int extra0, extra, room, ioff;	/* i_extra_isize before / as the 
 static unsigned long long acl0, iblk0;
 
 /* isz: the inode size as a CONSTANT (the harnesses call their body once per size, so that buffer sizes stay constants) */
+static int g_any_want_extra;
 static void setup(const unsigned int isz)
 {
 	IN.inode_size = isz;
-	ASSUME(IN.count >= 0 && IN.count <= 1000 && IN.ibody_count >= 0 && IN.ibody_count <= IN.count);
+	ASSUME(IN.count >= 0 && IN.count <= 2 && IN.ibody_count >= 0 && IN.ibody_count <= IN.count);
 	ASSUME(IN.rc_iread >= 0 && IN.rc_iwrite >= 0 && IN.rc_bread >= 0 && IN.rc_bwrite[0] >= 0 && IN.rc_bwrite[1] >= 0 && IN.rc_csum >= 0 && IN.rc_alloc >= 0 && IN.rc_wb[0] >= 0 && IN.rc_wb[1] >= 0);
-	ASSUME(IN.want_extra_isize <= IN.inode_size - 128);
+	if (!g_any_want_extra) ASSUME(IN.want_extra_isize <= IN.inode_size - 128);
 	ASSUME(IN.new_blk != 0 && IN.new_blk != IN.inode.i_file_acl && IN.new_blk >= IN.first_data_block && IN.new_blk < IN.blocks_count && IN.blocks_count <= 0xffffffffull);
 	memset(&SB, 0, sizeof(SB));
 	SB.s_rev_level = 1; SB.s_inode_size = IN.inode_size; SB.s_want_extra_isize = IN.want_extra_isize;
@@ -144,6 +184,7 @@ static void setup(const unsigned int isz)
 
 static void b_write_place(const unsigned int isz)
 {
+	g_any_want_extra = 0;
 	setup(isz);
 	const int nb = IN.count - IN.ibody_count;	/* attributes left for the block */
 	ASSUME(!(nb == 0 && acl0 != 0));		/* unit xattrs_write_empty_block */
@@ -189,9 +230,15 @@ static void b_write_place(const unsigned int isz)
 			if (acl0 != 0) CHECK(g_n_rd == 1 && g_rd_blk == acl0 && IN.hdr.h_magic == EXT2_EXT_ATTR_MAGIC && IN.hdr.h_blocks == 1 && acl0 >= IN.first_data_block && acl0 < IN.blocks_count,
 					     "an existing block is only reused or released after its header was read and found valid");
 		}
+#if !defined(XW_ONLY_ISIZE) || XW_ONLY_ISIZE == 256
 		if (room && IN.ibody_count > 0 && nb > 0) REACH("both regions");
+#endif
+#if !defined(XW_ONLY_ISIZE) || XW_ONLY_ISIZE == 128
 		if (IN.inode_size == 128) REACH("128-byte inodes");
+#endif
+#if !defined(XW_ONLY_ISIZE) || XW_ONLY_ISIZE == 256
 		if (IN.inode_size == 256 && extra0 == 0) REACH("i_extra_isize initialised");
+#endif
 	} else {
 		CHECK(g_n_iwrite == 0 || IN.rc_iwrite, "failure: the inode is not written (unless that write is what failed)");
 		REACH("failure");
@@ -202,6 +249,7 @@ static void b_write_place(const unsigned int isz)
 /* B: the last attribute left the block */
 static void b_write_empty_block(const unsigned int isz)
 {
+	g_any_want_extra = 0;
 	setup(isz);
 	const int nb = IN.count - IN.ibody_count;
 	ASSUME(nb == 0 && acl0 != 0);
@@ -222,6 +270,7 @@ static void b_write_empty_block(const unsigned int isz)
 /* item 5: i_blocks of the owner after the first EA-inode valued attribute was added */
 static void b_write_ea_inode_charge(const unsigned int isz)
 {
+	g_any_want_extra = 0;
 	setup(isz);
 	ASSUME(IN.count == 1 && IN.ea_ino != 0 && IN.ea_value_len <= X2SPEC_VALUE_MAX);
 	ASSUME(acl0 == 0);					/* the inode had no attributes */
@@ -239,7 +288,22 @@ static void b_write_ea_inode_charge(const unsigned int isz)
 	REACH("end");
 }
 
+static void b_write_want_extra_isize(const unsigned int isz)
+{
+	g_any_want_extra = 1;
+	setup(isz);
+	ASSUME(isz == 256 && IN.inode.i_extra_isize == 0);
+	errcode_t r = ext2fs_xattrs_write(&H);	/* the obligations are the memory-safety checks inside the real function */
+	if (IN.want_extra_isize > 128) REACH("s_want_extra_isize larger than the space behind the fixed fields");
+	REACH("end");
+}
+
+#ifdef XW_ONLY_ISIZE
+#define BY_INODE_SIZE(body) do { LOAD_IN(); body(XW_ONLY_ISIZE); } while (0)
+#else
 #define BY_INODE_SIZE(body) do { LOAD_IN(); ASSUME(IN.inode_size == 128 || IN.inode_size == 256); if (IN.inode_size == 128) body(128); else body(256); } while (0)
+#endif
 void h_write_place(void) { BY_INODE_SIZE(b_write_place); }
 void h_write_empty_block(void) { BY_INODE_SIZE(b_write_empty_block); }
 void h_write_ea_inode_charge(void) { BY_INODE_SIZE(b_write_ea_inode_charge); }
+void h_write_want_extra_isize(void) { BY_INODE_SIZE(b_write_want_extra_isize); }
